@@ -253,7 +253,15 @@ func visitInstr(fr *frame, instr ssa.Instruction) continuation {
 		sendChecked(ch, fr.get(instr.X))
 
 	case *ssa.Store:
-		store(mustDeref(instr.Addr.Type()), fr.get(instr.Addr).(*value), fr.get(instr.Val))
+		addr := fr.get(instr.Addr).(*value)
+		if fr.i.ps.trackW {
+			if g, ok := instr.Addr.(*ssa.Global); ok && fr.i.eng.isRepoPkg(g.Pkg) {
+				fr.i.ps.noteWrite("store to package variable " + g.String())
+			} else if fr.i.ps.gcells[addr] {
+				fr.i.ps.noteWrite("store into state reachable from a package variable")
+			}
+		}
+		store(mustDeref(instr.Addr.Type()), addr, fr.get(instr.Val))
 
 	case *ssa.If:
 		succ := 1
@@ -375,6 +383,9 @@ func visitInstr(fr *frame, instr ssa.Instruction) continuation {
 		v := fr.get(instr.Value)
 		switch m := m.(type) {
 		case *omap:
+			if fr.i.ps.trackW && fr.i.ps.gmaps[m] {
+				fr.i.ps.noteWrite("update of a map reachable from a package variable")
+			}
 			m.insert(key, v)
 		default:
 			panic(fmt.Sprintf("illegal map type: %T", m))
